@@ -67,9 +67,10 @@ Definition codes_eqb := list_eqb N.eqb.
 
 (* one call of ClientGenerator.generate(spec, root, client, force, core_package=<layout>);
    second component: the call returned (true) / raised GenerationError (false) *)
-Definition step_out (l : layout) (w : world) (g : gen_call) : world * bool :=
+(* [ex] = out_dir.exists() *)
+Definition step_out_with (l : layout) (ex : bool) (w : world) (g : gen_call) : world * bool :=
   let c := g_client g in
-  if negb (g_force g) && dir_exists l w c then
+  if negb (g_force g) && ex then
     (* diff path: everything is emitted under a temporary root whose registry is empty, then
        compared with the existing files; nothing under the project root changes.  The comparison
        always finds a difference here: a client that was generated before differs in its rich
@@ -79,13 +80,16 @@ Definition step_out (l : layout) (w : world) (g : gen_call) : world * bool :=
   else
     (* direct path: shutil.rmtree(out_dir) when it exists — this takes the core with it when the
        core lives inside this client's directory *)
-    let wiped := dir_exists l w c && inside l c in
+    let wiped := ex && inside l c in
     let reg0 := if wiped then None else registry w in
     (* ExceptionsEmitter.emit *)
     let reg1 := if is_shared l then Some (aset (reg_or_empty reg0) c (errs_of g)) else reg0 in
     let al := if is_shared l then union_codes (reg_or_empty reg1) else errs_of g in
     ({| registry := reg1; aliases := Some al; clients := aset (clients w) c (imports_of g);
         claimed := add_str c (claimed w) |}, true).
+
+Definition step_out (l : layout) (w : world) (g : gen_call) : world * bool :=
+  step_out_with l (dir_exists l w (g_client g)) w g.
 
 Definition step (l : layout) (w : world) (g : gen_call) : world := fst (step_out l w g).
 Definition run (l : layout) (h : list gen_call) : world := fold_left (step l) h init.
